@@ -26,7 +26,6 @@ Normalisations (all behaviour preserving, each checked syntactically, else raise
   * `PyList_SET_ITEM(x, i, v);` on a local `x` becomes `x = list_set(x, i, v);`
   * local variables are numbered (parameters first, then in order of first occurrence).
 """
-import hashlib
 import os
 import re
 
@@ -729,9 +728,7 @@ def translate_function(csrc, name, macros, defines):
     em = Emitter(params, p.decls, defines)
     text = em.stmts(top, "      ")
     slots = " ".join("%d=%s" % (i, n) for n, i in sorted(em.slots.items(), key=lambda kv: kv[1]))
-    digest = hashlib.sha256(re.sub(r"\s+", " ", text).encode()).hexdigest()[:32]
-    return ("/-- digest of the term below (whitespace-normalised): changes iff the translated skeleton changes -/\n"
-            "def %s_digest : String := \"%s\"\n" % (name, digest)) + ("/-- `%s` (traits/ctraits.c); slots %s -/\n"
+    return ("/-- `%s` (traits/ctraits.c); slots %s -/\n"
             "def %s : Func := { nparams := %d, body :=\n      %s }\n" % (name, slots, name, len(params), text))
 
 
